@@ -127,7 +127,12 @@ Inductive case :=
    entry 1 = TRS.TransformArray, 2 = TRS.TransformInPlace, 3 = Quaternion.RotateArray run the GENERATED array function
    on the list of sampled inputs (it is element-wise, so a sub-list gives the same elements); entry 0 = mesh level
    (Mesh.ApplyTRS hands the Position array to TransformArray: generated; Rotate/Translate/Scale: hand-written mesh_map). *)
-| CBig (tol : Q) (op entry : nat) (n mismatches : N) (len_ok : bool) (p s q : list Q) (samples : list (list Q * list Q)).
+| CBig (tol : Q) (op entry : nat) (n mismatches : N) (len_ok : bool) (p s q : list Q) (samples : list (list Q * list Q))
+(* the remaining exported AABB methods (round 4): mn mx sz vol = Min / Max / Size / Volume of box (c,e); inter = Intersects
+   with box (oc,oe); (c3,e3) = the box after Expand(amount) *)
+| CBoxMisc (tol : Q) (c e oc oe : list Q) (amount : Q) (mn mx sz : list Q) (vol : Q) (inter : bool) (c3 e3 : list Q)
+(* m = MatFromDirs up forward offset (16 entries, row-major) *)
+| CMatDirs (tol : Q) (up fwd off m : list Q).
 
 (* the model of an array-level entry point (see CBig) *)
 Definition array_model (op entry : nat) (p s q : list Q) (xs : list (vec3 Q)) : list (vec3 Q) :=
@@ -198,17 +203,25 @@ Definition corr_ok (k : case) : bool :=
   | CClosest tol c e v cp inside probes =>
       closel tol (v3_to (Aabb.AABB_ClosestPoint (box_of c e) (v3_of v))) cp
   | CBoxFrom tol pts c e contains =>
-      (* hand-written model of the loop: componentwise min / max, then area = max - min, NewAABB(area/2 + min, area) *)
-      match pts with
+      (* hand-written model of the loop (AlgebraSpec.box_from_points: componentwise min / max folds, then the TRANSLATED
+         NewAABB(area/2 + min, area)) — the definition box_from_points_contains is proved about *)
+      match map v3_of pts with
       | [] => true
-      | p0 :: _ =>
-          let lo := fold_left (fun a x => map2q Qminb a x) pts p0 in
-          let hi := fold_left (fun a x => map2q Qmaxb a x) pts p0 in
-          let ext := map (fun d => d * (1 # 2))%Q (map2q Qminus hi lo) in
-          closel tol (map2q Qplus ext lo) c && closel tol ext e
+      | p0 :: rest =>
+          let B := box_from_points p0 rest in
+          closel tol (v3_to (Aabb.AABB_center B)) c && closel tol (v3_to (Aabb.AABB_extents B)) e
       end
   | CBig tol op entry n mismatches len_ok p s q samples =>
       closell tol (map v3_to (array_model op entry p s q (map (fun io => v3_of (fst io)) samples))) (map snd samples)
+  | CBoxMisc tol c e oc oe amount mn mx sz vol inter c3 e3 =>
+      let B := box_of c e in
+      let B3 := Aabb.AABB_Expand B amount in
+      closel tol (v3_to (Aabb.AABB_Min B)) mn && closel tol (v3_to (Aabb.AABB_Max B)) mx &&
+      closel tol (v3_to (Aabb.AABB_Size B)) sz && close tol (Aabb.AABB_Volume B) vol &&
+      closel tol (v3_to (Aabb.AABB_center B3)) c3 && closel tol (v3_to (Aabb.AABB_extents B3)) e3 &&
+      (if Qeq_bool tol 0 then Bool.eqb (Aabb.AABB_Intersects B (box_of oc oe)) inter else true)
+  | CMatDirs tol up fwd off m =>
+      closel tol (mat_to (Mat.MatFromDirs (v3_of up) (v3_of fwd) (v3_of off))) m
   end.
 
 (* ------------------------------------------------------------------ the property on the implementation's output *)
@@ -274,11 +287,17 @@ Definition prop_ok (k : case) : bool :=
       forallb (fun pr =>
         (* a point of the old box (by the specification, resp. by the implementation's own Contains) is in the new one *)
         implb (in_box_tol 0 c e (fst pr)) (in_box_tol tol c2 e2 (fst pr)) &&
-        (if Qeq_bool tol 0 then implb (fst (snd pr)) (snd (snd pr)) else true)) probes
+        (* exact cases: the implementation's Contains IS membership in [centre - extents, centre + extents] *)
+        (if Qeq_bool tol 0 then implb (fst (snd pr)) (snd (snd pr)) &&
+                                Bool.eqb (fst (snd pr)) (in_box_tol 0 c e (fst pr)) &&
+                                Bool.eqb (snd (snd pr)) (in_box_tol 0 c2 e2 (fst pr)) else true)) probes
   | CBoxBox tol c e bc be c2 e2 probes =>
       forallb (fun pr =>
         implb (in_box_tol 0 c e (fst pr) || in_box_tol 0 bc be (fst pr)) (in_box_tol tol c2 e2 (fst pr)) &&
-        (if Qeq_bool tol 0 then implb (fst (snd pr) || fst (snd (snd pr))) (snd (snd (snd pr))) else true)) probes
+        (if Qeq_bool tol 0 then implb (fst (snd pr) || fst (snd (snd pr))) (snd (snd (snd pr))) &&
+                                Bool.eqb (fst (snd pr)) (in_box_tol 0 c e (fst pr)) &&
+                                Bool.eqb (fst (snd (snd pr))) (in_box_tol 0 bc be (fst pr)) &&
+                                Bool.eqb (snd (snd (snd pr))) (in_box_tol 0 c2 e2 (fst pr)) else true)) probes
   | CClosest tol c e v cp inside probes =>
       lenb 3 cp && in_box_tol tol c e cp && (if Qeq_bool tol 0 then inside else true) &&
       (if in_box_strict tol c e v then closel tol cp v else true) &&
@@ -303,4 +322,25 @@ Definition prop_ok (k : case) : bool :=
                  | 2 => v3_mult_by_vector x (v3_of s)
                  | _ => trs_spec (v3_of p) (v3_of s) (quat_of q) x
                  end)) samples
+  | CBoxMisc tol c e oc oe amount mn mx sz vol inter c3 e3 =>
+      lenb 3 mn && lenb 3 mx && lenb 3 sz && lenb 3 c3 && lenb 3 e3 &&
+      (* Min = centre - extents, Max = centre + extents, Size = Max - Min, Volume = product of the sizes *)
+      closel tol mn (map2q Qminus c e) && closel tol mx (map2q Qplus c e) && closel tol sz (map2q Qminus mx mn) &&
+      close tol vol (qn sz 0 * qn sz 1 * qn sz 2)%Q &&
+      (* Expand(amount) keeps the centre and moves every face outwards by amount/2 *)
+      closel tol c3 c && closel tol e3 (map (fun x => x + amount * (1 # 2))%Q e) &&
+      (* Intersects: the closed intervals overlap on every axis (exact cases) *)
+      (if Qeq_bool tol 0 then
+         Bool.eqb inter (forallb (fun i => Qle_bool (qn c i - qn e i) (qn oc i + qn oe i) &&
+                                           Qle_bool (qn oc i - qn oe i) (qn c i + qn e i))%Q [0; 1; 2])
+       else true)
+  | CMatDirs tol up fwd off m =>
+      (* an affine matrix (last row 0 0 0 1) whose translation column is the offset and whose second column is up;
+         the first and third columns are unit vectors perpendicular to up *)
+      lenb 16 m &&
+      closel tol [qn m 12; qn m 13; qn m 14; qn m 15] [0; 0; 0; 1]%Q &&
+      closel tol [qn m 3; qn m 7; qn m 11] off && closel tol [qn m 1; qn m 5; qn m 9] up &&
+      (let col j := [qn m j; qn m (4 + j); qn m (8 + j)] in
+       close tol (qdot (col 0) (col 0)) 1 && close tol (qdot (col 2) (col 2)) 1 &&
+       close tol (qdot (col 0) up) 0 && close tol (qdot (col 2) up) 0 && close tol (qdot (col 0) (col 2)) 0)
   end.
